@@ -41,6 +41,8 @@ structure DSt where
   spec copy (open finding D69); in the copy of the code exactly when `Operator.HandleEvent` checks the sender
   (`Facts.c02SenderChecked`, regenerated from the source on every run) -/
   refuseU : Bool := false
+  /-- number of further callers named in the header (they exist for the harness even when the operator admits none) -/
+  zHdr : Nat := 0
 
 def insSorted (k : Bytes) : List Bytes → List Bytes
   | [] => [k]
@@ -139,7 +141,7 @@ def isReleased : Obs → Bool
   | _ => false
 
 /-- sender `sr` is a caller that is not among the deployed runners -/
-def undeployed (st : DSt) (sr : String) : Bool := st.s.k ≤ natOr sr && natOr sr < st.s.k + st.s.z
+def undeployed (st : DSt) (sr : String) : Bool := st.s.k ≤ natOr sr && natOr sr < st.s.k + st.zHdr
 
 def step'' (st : DSt) : List String → DSt × String
   | ["send", sr, "ev", k, p, t] =>
@@ -208,14 +210,15 @@ def step'' (st : DSt) : List String → DSt × String
   | ["stale"] =>
     let (st, o) := doAct st .stale
     (st, if o.isEmpty then "none" else joinWith " " o)
-  | ["state"] => (st, if st.s.stopped then "gone" else showState st.s)
+  | ["state"] =>
+    (st, if st.s.stopped then "gone" else showState st.s ++ String.ofList (List.replicate (st.zHdr - st.s.z) '-'))
   | _ => (st, "bad-op")
 
 /-- a new call while the consumer is held: it blocks on the read lock (at most one per hold is started) -/
 def startBlocked (st : DSt) (h : HSt) (sr : Nat) (its : List Item) (n : Nat) : DSt × String :=
   if its.length != n || its.isEmpty then (st, "bad-op") else
   let st := { st with keys := addKeys st.keys its }
-  if sr < st.s.k + st.s.z then
+  if sr < st.s.k + st.zHdr then
     match its with
     | it :: tl =>
       let r := hstep h (.base (.align sr it))
@@ -287,7 +290,10 @@ def handle (lines : Array String) (i : Nat) (out : Array String) : Nat × Array 
   let k := natOr (hdr.getD 2 "1")
   let b := natOr (hdr.getD 3 "1")
   let z := natOr (hdr.getD 4 "0")
-  runLines stepBoth { c := { s := { init k (max b 1) with z := z }, refuseU := Facts.c02SenderChecked == 1 },
-                      sp := { s := { init k (max b 1) with z := z }, specMode := true, refuseU := true } } lines i out
+  -- the copy of the code starts from `codeInit` (callers outside the runners admitted only if the source does not
+  -- check the sender); the spec copy never serves them
+  runLines stepBoth { c := { s := codeInit k (max b 1) z, refuseU := Facts.c02SenderChecked == 1, zHdr := z },
+                      sp := { s := { init k (max b 1) with z := z }, specMode := true, refuseU := true, zHdr := z } }
+    lines i out
 
 end Driver.C02
